@@ -52,8 +52,32 @@ class C26(Prop):
                 "From PP Require Import Model.C33 Model.C26.\nOpen Scope Q_scope.\n")
     n_cases = (40, 500)
     design_ref = "DESIGN.md §5 C26"
-    level_text = ""   # filled in below
-    level_note = ""
+    level_text = (
+        "P-core.  Coq theorems over an exact-rational transcription of MortarGrid._init_projections, "
+        "_set_projections, update_mortar, update_secondary and _check_mappings (1-D mortar grids, "
+        "match_1d weights from the C33 model): after construction and after EVERY history of mortar / "
+        "secondary replacements the mortar-to-grid integrated maps are the transposes of the "
+        "grid-to-mortar averaged maps and vice versa (C26_transposes, C26_transpose_sums); every block "
+        "the updates build has unit row sums ('averaged') / unit column sums ('integrated') for grids "
+        "tessellating the same segment (C26_block_weights, by C33's overlap theorem); the matrix "
+        "product the updates perform preserves unit row sums and per-side column sums "
+        "(C26_avg_rows_preserved_partial, C26_int_side_cols_preserved_partial); the updates raise "
+        "IndexError only for zero-length cells (C26_update_error).  The model is tied to the code on "
+        "every run: real MortarGrids of small 2-D md-grids with one fracture, all eight projection "
+        "matrices compared (1e-9) after construction and after each replacement; the property "
+        "itself (per-side row/column sums, transposes) is evaluated exactly on the real matrices, "
+        "also after update_primary.")
+    level_note = (
+        "NOT proved in Coq (covered only by the execution correspondence and the oracle on the "
+        "generated histories): that the block-diagonal / stacked arrangement (sps.bmat) of the proved "
+        "blocks satisfies the hypotheses of the two _partial preservation theorems (index "
+        "bookkeeping), the sums right after _init_projections (stable sort and even/odd split of the "
+        "face-cell pairs), update_primary / match_grids_along_1d_mortar, 2-D mortar grids (match_2d, "
+        "shapely), sign_of_mortar_sides.  Trusted: Coq kernel + vm_compute, the harness, the inputs "
+        "read off the real objects (captured primary_secondary matrix, node coordinates).  Theorems "
+        "are over Q; floating-point rounding is not covered.  Defect found and repaired (fix commit "
+        "32834ce81): update_primary after a non-matching update_mortar counted interface faces "
+        "repeatedly.")
     technique = ("Coq proof (invariant of the projection bookkeeping preserved by every update, using "
                  "C33's overlap theorem) + vm_compute execution correspondence on real MortarGrids")
     rule = ("2-D Cartesian md-grids (nx,ny in 2..5, occasionally simplex from pp.mdg_library) with one "
